@@ -15,8 +15,11 @@ import (
 	"fmt"
 	"io"
 	"os"
+	"sort"
 	"strings"
 	"unicode/utf16"
+
+	"verif/harness/internal/cfbx"
 )
 
 type Item struct {
@@ -286,6 +289,130 @@ func clearItems(path string) ([]Item, error) {
 	return []Item{{"cleartext", sum([]byte(sb.String()))}, {"lines", fmt.Sprint(len(lines))}}, nil
 }
 
+// msiItems: every stream and storage of the compound file except the two signature streams, by path, with its
+// metadata (class id, state bits, times) and content hash - read by the harness's own [MS-CFB] reader
+func msiItems(path string) ([]Item, error) {
+	data, err := os.ReadFile(path)
+	if err != nil {
+		return nil, err
+	}
+	st, err := cfbx.ReadData(data)
+	if err != nil {
+		return nil, err
+	}
+	var items []Item
+	for _, e := range st.Dir {
+		if e.Type != 1 && e.Type != 2 {
+			continue
+		}
+		if e.Path == "/\x05DigitalSignature" || e.Path == "/\x05MsiDigitalSignatureEx" {
+			continue
+		}
+		items = append(items, Item{fmt.Sprintf("%d:%s", e.Type, e.Path), fmt.Sprintf("%s/%d/%s", e.Sum, e.Size, e.Meta)})
+	}
+	sort.Slice(items, func(i, j int) bool { return items[i].Name < items[j].Name })
+	return items, nil
+}
+
+// cabItems: a cabinet read from [MS-CAB]: folders, files (name, size, attributes, position) and every data block
+// framed with the header's reserve sizes, its checksum verified
+func cabItems(path string) ([]Item, error) {
+	d, err := os.ReadFile(path)
+	if err != nil {
+		return nil, err
+	}
+	if len(d) < 36 || string(d[:4]) != "MSCF" {
+		return nil, errors.New("not a cabinet")
+	}
+	le16 := func(o int) int { return int(binary.LittleEndian.Uint16(d[o:])) }
+	le32 := func(o int) int { return int(binary.LittleEndian.Uint32(d[o:])) }
+	coffFiles, nFolders, nFiles, flags := le32(16), le16(26), le16(28), le16(30)
+	pos := 36
+	hdrRes, folderRes, dataRes := 0, 0, 0
+	if flags&4 != 0 {
+		if len(d) < pos+4 {
+			return nil, errors.New("cabinet: short reserve header")
+		}
+		hdrRes, folderRes, dataRes = le16(pos), int(d[pos+2]), int(d[pos+3])
+		pos += 4 + hdrRes
+	}
+	cstr := func() {
+		for pos < len(d) && d[pos] != 0 {
+			pos++
+		}
+		pos++
+	}
+	if flags&1 != 0 {
+		cstr()
+		cstr()
+	}
+	if flags&2 != 0 {
+		cstr()
+		cstr()
+	}
+	var items []Item
+	for f := 0; f < nFolders; f++ {
+		if len(d) < pos+8+folderRes {
+			return nil, errors.New("cabinet: short folder")
+		}
+		start, nblocks, typ := le32(pos), le16(pos+4), le16(pos+6)
+		pos += 8 + folderRes
+		bp := start
+		h := sha256.New()
+		for b := 0; b < nblocks; b++ {
+			if len(d) < bp+8+dataRes {
+				return nil, fmt.Errorf("cabinet: folder %d block %d outside the file", f, b)
+			}
+			csum, cb, ucb := uint32(le32(bp)), le16(bp+4), le16(bp+6)
+			body := bp + 8 + dataRes
+			if len(d) < body+cb {
+				return nil, fmt.Errorf("cabinet: folder %d block %d data outside the file", f, b)
+			}
+			if csum != 0 {
+				if got := cabChecksum(d[body:body+cb], cabChecksum(d[bp+4:bp+8+dataRes], 0)); got != csum {
+					return nil, fmt.Errorf("cabinet: folder %d block %d checksum %08x, computed %08x (blocks mis-framed)", f, b, csum, got)
+				}
+			}
+			h.Write(d[body : body+cb])
+			fmt.Fprintf(h, "|%d|", ucb)
+			bp = body + cb
+		}
+		items = append(items, Item{fmt.Sprintf("folder%d", f), fmt.Sprintf("%d/%d/%x", typ, nblocks, h.Sum(nil)[:8])})
+	}
+	pos = coffFiles
+	for i := 0; i < nFiles; i++ {
+		if len(d) < pos+16 {
+			return nil, errors.New("cabinet: short file entry")
+		}
+		size, off, folder, attr := le32(pos), le32(pos+4), le16(pos+8), le16(pos+14)
+		pos += 16
+		s0 := pos
+		cstr()
+		items = append(items, Item{"file:" + string(d[s0:pos-1]), fmt.Sprintf("%d@%d in %d attr %x", size, off, folder, attr)})
+	}
+	return items, nil
+}
+
+// the [MS-CAB] block checksum
+func cabChecksum(b []byte, seed uint32) uint32 {
+	csum := seed
+	n := len(b) / 4
+	for i := 0; i < n; i++ {
+		csum ^= binary.LittleEndian.Uint32(b[4*i:])
+	}
+	var ul uint32
+	rest := b[4*n:]
+	switch len(rest) {
+	case 3:
+		ul |= uint32(rest[0])<<16 | uint32(rest[1])<<8 | uint32(rest[2])
+	case 2:
+		ul |= uint32(rest[0])<<8 | uint32(rest[1])
+	case 1:
+		ul |= uint32(rest[0])
+	}
+	return csum ^ ul
+}
+
 // PayloadItems projects a file of the given type. ok=false when no independent reader exists.
 func PayloadItems(typ, path string) (items []Item, ok bool, err error) {
 	switch typ {
@@ -303,6 +430,10 @@ func PayloadItems(typ, path string) (items []Item, ok bool, err error) {
 		items, err = dmgItems(path)
 	case "pgp-clearsign":
 		items, err = clearItems(path)
+	case "msi":
+		items, err = msiItems(path)
+	case "cab":
+		items, err = cabItems(path)
 	default:
 		return nil, false, nil
 	}
